@@ -102,9 +102,7 @@ impl Stringify for Template {
             let nodes = &t.content;
             if !is_children_empty(nodes) {
                 stringifier.write_str(r#">"#)?;
-                for node in nodes {
-                    node.stringify_write(stringifier)?;
-                }
+                stringify_children(nodes, stringifier)?;
                 stringifier.write_token(
                     r#"<"#,
                     None,
@@ -122,9 +120,7 @@ impl Stringify for Template {
                 stringifier.write_token(">", None, &tag_location.start.1)?;
             }
         }
-        for node in self.content.iter() {
-            node.stringify_write(stringifier)?;
-        }
+        stringify_children(&self.content, stringifier)?;
         stringifier.scope_names.clear();
         Ok(())
     }
@@ -156,6 +152,28 @@ impl Stringify for Node {
         }
         Ok(())
     }
+}
+
+/// Write sibling nodes. Text nodes that are only separated by comments (which are not printed)
+/// become adjacent in the output: a static text ending in `{` must then not join the next text.
+fn stringify_children<'s, W: FmtWrite>(
+    children: &[Node],
+    stringifier: &mut Stringifier<'s, W>,
+) -> FmtResult {
+    for (i, child) in children.iter().enumerate() {
+        if let Node::Text(Value::Static { value, location }) = child {
+            let next_printed = children[i + 1..]
+                .iter()
+                .find(|x| !matches!(x, Node::Comment(..)));
+            if value.ends_with('{') && matches!(next_printed, Some(Node::Text(..))) {
+                let quoted = escape_html_body_before_binding(value);
+                stringifier.write_token(&quoted, None, location)?;
+                continue;
+            }
+        }
+        child.stringify_write(stringifier)?;
+    }
+    Ok(())
 }
 
 fn is_children_empty(children: &[Node]) -> bool {
@@ -406,9 +424,7 @@ impl Stringify for Element {
                 write_named_attr(stringifier, name, loc, value)?;
                 if !is_children_empty(children) {
                     stringifier.write_token(">", None, &self.tag_location.start.1)?;
-                    for child in children {
-                        child.stringify_write(stringifier)?;
-                    }
+                    stringify_children(children, stringifier)?;
                     stringifier.write_token(
                         "<",
                         None,
@@ -443,9 +459,7 @@ impl Stringify for Element {
                 stringifier.write_token("wx:else", None, loc)?;
                 if !is_children_empty(children) {
                     stringifier.write_token(">", None, &self.tag_location.start.1)?;
-                    for child in children {
-                        child.stringify_write(stringifier)?;
-                    }
+                    stringify_children(children, stringifier)?;
                     stringifier.write_token(
                         "<",
                         None,
@@ -660,9 +674,7 @@ impl Stringify for Element {
         let children = self.children().unwrap_or(&empty_children);
         if !is_children_empty(children) {
             stringifier.write_token(">", None, &self.tag_location.start.1)?;
-            for child in children {
-                child.stringify_write(stringifier)?;
-            }
+            stringify_children(children, stringifier)?;
             stringifier.write_token(
                 "<",
                 None,
